@@ -261,6 +261,12 @@ func sDecide(me int32) int32 {
 		}
 		return me
 	}
+	if sMode == 2 {
+		// lock step: every task advances one statement at a time, in task
+		// order - tasks that run the same operation sit in the same window of
+		// it at the same time
+		return sNextAliveFrom(me+1, me)
+	}
 	if uint32(sRand()%1000) < sStick {
 		return me
 	}
@@ -349,7 +355,7 @@ func sFinish(me int32) {
 		sCheck()
 	}
 	next := int32(-2)
-	if sMode == 0 {
+	if sMode == 0 || sMode == 2 {
 		next = sNextAliveFrom(me+1, -1)
 	} else {
 		next = sNextAliveFrom(int32(sRand()%uint64(sN)), -1)
